@@ -90,7 +90,12 @@ def _pmap(fn, tasks, chunksize, what):
     from concurrent.futures.process import BrokenProcessPool
     try:
         with cf.ProcessPoolExecutor(max_workers=NPROC, mp_context=mp.get_context("fork")) as ex:
-            return list(ex.map(fn, tasks, chunksize=chunksize))
+            out, t0 = [], time.time()
+            for x in ex.map(fn, tasks, chunksize=chunksize):
+                out.append(x)
+                if os.environ.get("VERIF_C20_PROGRESS") and len(out) % 500 == 0:
+                    print("  %s: %d of %d after %.0f s" % (what, len(out), len(tasks), time.time() - t0), file=sys.stderr, flush=True)
+            return out
     except BrokenProcessPool as e:
         raise MachineryError("%s: a worker process died (%s)" % (what, e))
 
@@ -565,8 +570,8 @@ def _stalls(c, key):
     blocked while A is parked (a wrong guess only means that A and B then really run side by side), `long` that B or A
     never finishes once nothing is parked any more"""
     mx = c.expected[key][2]
-    short = max(0.25, 10 * mx) if _ADAPT["blocked"] < 3 else max(0.08, 5 * mx)
-    return short, max(3.0, 60 * mx) if _ADAPT["blocked"] < 6 else max(1.0, 25 * mx)
+    short = min(1.0, max(0.25, 10 * mx)) if _ADAPT["blocked"] < 3 else min(0.3, max(0.08, 5 * mx))
+    return short, min(6.0, max(3.0, 60 * mx)) if _ADAPT["blocked"] < 6 else min(3.0, max(1.0, 25 * mx))
 
 
 def _peek(c, obj, loc):
@@ -628,12 +633,22 @@ def _gname(name, mode, opcode, deep, kind="pt"):
 def _expect(c, mode, full, ops):
     key = (mode, full)
     if key not in c.expected:
-        # "one after another": B's operations before A's operation, or after it
-        dur = []
-        first = _run_ops(c, ops, _make(c, mode), dur=dur)
-        after_a = _make(c, mode)
-        res_a = _canon(c, _a_op(c, mode)(after_a))
-        c.expected[key] = ([(x, y) for x, y in zip(first, _run_ops(c, ops, after_a))], res_a, max(dur + [0.001]))
+        # "one after another": B's operations before A's operation, or after it.  (Computed by the parent process before
+        # any worker is forked; here in a helper thread, so that not even a wedged library can hang the recorder.)
+        box = {}
+
+        def seq():
+            dur = []
+            first = _run_ops(c, ops, _make(c, mode), dur=dur)
+            after_a = _make(c, mode)
+            res_a = _canon(c, _a_op(c, mode)(after_a))
+            box["v"] = ([(x, y) for x, y in zip(first, _run_ops(c, ops, after_a))], res_a, max(dur + [0.001]))
+        t = threading.Thread(target=seq, daemon=True)
+        t.start()
+        t.join(120)
+        if "v" not in box:
+            raise MachineryError("the sequential run of B's operations (%s/%s) does not terminate" % (c.name, mode))
+        c.expected[key] = box["v"]
     return key, c.expected[key]
 
 
@@ -650,6 +665,13 @@ def _point(task):
     """one pre-emption point -> one event.  Never hangs: thread B runs in a helper thread.  blocked = 0: B completed while
     A was parked; 1: B made no progress while A was parked and completed after A had been resumed (it waited for something
     A holds: legitimate serialisation); 2: B (or A) never completed although nothing was parked any more."""
+    t0 = time.time()
+    e = _point1(task)
+    e["_dur"] = round(time.time() - t0, 3)
+    return e
+
+
+def _point1(task):
     c = _ctx(task["name"])
     if task["kind"] != "pt":
         return _interrupted(c, task)
@@ -720,8 +742,8 @@ def _interrupted(c, task):
     short, long_ = _stalls(c, key)
     blocked, who = 0, []
     lineno, where, stopped, loc = 0, "", False, None
-    a_wait = max(20.0, long_) if _ADAPT["blocked"] < 2 else max(1.0, short * 4)
-    if _ADAPT["wedged"] >= 3 and mode != "scale":
+    a_wait = long_ if _ADAPT["blocked"] < 2 else max(1.0, short * 4)
+    if _ADAPT["wedged"] >= 2 and mode != "scale":
         # Several abandoned operations in this process have left the library in a state in which later operations on
         # FRESH objects never finish.  Is it still so?  Then this event is the same observation (B on a fresh object is
         # blocked for ever) and is recorded as such without waiting for yet another set of timeouts.
@@ -852,6 +874,7 @@ def _lazy_part(rep, tier, wd, J):
     CH = 100
     for (name, mode, kind, opcode, deep, full, sample) in plan:
         K = _count_events(name, mode, opcode, deep)
+        _expect(_ctx(name), mode, full, _ops(_ctx(name), mode, full))      # sequential results: before the workers are forked
         gname = _gname(name, mode, opcode, deep, kind)
         # some points past the sequential count: a run whose path is longer (history-dependent state in a callee)
         # is then still stopped near its end, a run that is through is recorded as "A has finished"
@@ -876,6 +899,7 @@ def _lazy_part(rep, tier, wd, J):
         if name == "ed448":
             continue
         tid += 1
+        _expect(_ctx(name), "table", False, _ops(_ctx(name), "table", False))
         gname = _gname(name, "table", False, False, "fail")
         groups[gname] = {"preemption_points_total": 1, "points_run": 1, "B_operations_per_point": 0}
         tasks.append({"name": name, "mode": "table", "kind": "fail", "opcode": False, "deep": False, "full": False, "idx": 0,
